@@ -1,8 +1,8 @@
 ---------------------------- MODULE MCWireCodec ----------------------------
-(* Generator of C07 component round-trip scenarios.  One TLC state per scenario (the state is an index
-   into the constant sequence All); the always-true invariant Emit prints the scenario; the invariant
-   Accepted is the design-level self-check that every enumerated description lies inside the
-   constructor-accepted space stated in WireCodec.tla and that the image has the announced length. *)
+(* Generator of C07 component round-trip scenarios.  The scenarios form the constant sequence All; the
+   always-true invariant Emit prints every scenario; the invariant Accepted is the design-level
+   self-check that every enumerated description lies inside the constructor-accepted space stated in
+   WireCodec.tla. *)
 EXTENDS WireCodec, Json, FiniteSets
 
 CONSTANT Thorough
@@ -42,13 +42,13 @@ Base3 == [queries |-> 1, blowup |-> 2, grind |-> 0, ext |-> 1, fold |-> 2, rem |
 Blowups == {2, 4, 8, 16, 32, 64, 128}
 Rems    == {0, 1, 3, 7, 15, 31, 63, 127, 255}
 HRates  == IF Thorough THEN 1..255 ELSE {1, 2, 8, 127, 128, 254, 255}
-Star(b) ==
-  {[b EXCEPT !.queries = v] : v \in 1..255} \cup {[b EXCEPT !.blowup = v] : v \in Blowups}
+Star(b, full) ==
+  {[b EXCEPT !.queries = v] : v \in IF full THEN 1..255 ELSE {1, 2, 127, 128, 254, 255}} \cup {[b EXCEPT !.blowup = v] : v \in Blowups}
   \cup {[b EXCEPT !.grind = v] : v \in 0..32} \cup {[b EXCEPT !.ext = v] : v \in 1..3}
   \cup {[b EXCEPT !.fold = v] : v \in {2, 4, 8, 16}} \cup {[b EXCEPT !.rem = v] : v \in Rems}
   \cup {[b EXCEPT !.cbatch = v] : v \in 0..2} \cup {[b EXCEPT !.dbatch = v] : v \in 0..2}
   \cup {[b EXCEPT !.parts = v] : v \in 1..16} \cup {[b EXCEPT !.hrate = v] : v \in HRates}
-OptSet == Star(Base1) \cup Star(Base2) \cup Star(Base3)
+OptSet == Star(Base1, TRUE) \cup Star(Base2, Thorough) \cup Star(Base3, Thorough)
           \cup {[Base1 EXCEPT !.parts = p, !.hrate = r] : p \in 1..16, r \in {1, 8, 255}}
           \cup {[Base1 EXCEPT !.ext = e, !.cbatch = a, !.dbatch = b] : e \in 1..3, a \in 0..2, b \in 0..2}
 OptCases == SetToSeq(OptSet)
@@ -84,8 +84,12 @@ MkDigest(h, s) == IF h \in ByteHashers THEN BDig(PatDigestBytes(h, s))
 ElemVals(h) == <<<<>>, <<1>>, MaxElem(HashField(h)), MidElem(h, 5)>>
 ByteDigestCases(h) == <<BDig(Zeros(DigestLen(h))), BDig([i \in 1..DigestLen(h) |-> 255]),
                         BDig(PatDigestBytes(h, 1)), BDig(PatDigestBytes(h, 2))>>
-ElemDigestCases(h) == [i \in 1..256 |-> EDig(<<Pick(ElemVals(h), i - 1, 1), Pick(ElemVals(h), i - 1, 4),
-                                               Pick(ElemVals(h), i - 1, 16), Pick(ElemVals(h), i - 1, 64)>>)]
+\* every assignment of {0, 1, p-1, mid} to the four positions (thorough); quick: {0, p-1, mid} (81)
+EVals(h) == IF Thorough THEN ElemVals(h) ELSE <<ElemVals(h)[1], ElemVals(h)[3], ElemVals(h)[4]>>
+ElemDigestCases(h) == LET n == Len(EVals(h)) IN
+                      [i \in 1..(n * n * n * n) |->
+                         EDig(<<Pick(EVals(h), i - 1, 1), Pick(EVals(h), i - 1, n),
+                                Pick(EVals(h), i - 1, n * n), Pick(EVals(h), i - 1, n * n * n)>>)]
 DigestCases(h) == IF h \in ByteHashers THEN ByteDigestCases(h) ELSE ElemDigestCases(h)
 DigScen(h, d) == [ty |-> "Digest", f |-> HashField(h), h |-> h, x |-> 1, d |-> d, exp |-> <<Lit(DigestImage(h, d))>>]
 RECURSIVE DigScens(_)
@@ -184,7 +188,7 @@ All == [i \in 1..Len(TiCases) |-> TiScen(TiCases[i])]
        \o [i \in 1..Len(CtxCases) |-> CtxScen(CtxCases[i])]
        \o DigScens(1) \o ComScens(1) \o BmpScens(1) \o QScens(1) \o OodScens(1) \o FriScens
 
-Init == c \in 1..Len(All)
+Init == c = 0
 Next == UNCHANGED c
 Spec == Init /\ [][Next]_c
 
@@ -199,6 +203,7 @@ InSpace(s) ==
     [] s.ty = "Queries"          -> QueriesOk(s.h, s.d)
     [] s.ty = "OodFrame"         -> OodOk(s.f, s.d)
     [] OTHER                     -> TRUE
-Accepted == InSpace(All[c])
-Emit == PrintT(<<"REPLAY", ToJson(All[c])>>)
+\* (one state; both invariants range over the whole constant sequence)
+Accepted == \A i \in 1..Len(All) : InSpace(All[i])
+Emit == \A i \in 1..Len(All) : PrintT(<<"REPLAY", ToJson(All[i])>>)
 =============================================================================
